@@ -160,6 +160,12 @@ def cli_cases(rnd, n):
         if not any(k in ('curve25519-sha256', 'diffie-hellman-group16-sha512') for k in peer['kex']):
             peer['hks'] = {}        # no key exchange the tool can drive: nothing can be measured on this peer
         peer['dhs'] = {}
+        if peer['hks'] and i % 6 == 5:
+            # the server advertises its RSA key types but closes the probe connection instead of presenting the key: the size on
+            # record is 0, which satisfies no policy size (neither exactly nor as "at least")
+            for t in peer['hks']:
+                if t != 'ssh-ed25519':
+                    peer['hks'][t]['size'] = 0
         subset, larger = rnd.random() < 0.5, rnd.random() < 0.5
         pol = {'banner': '', 'comp': [], 'opt': [], 'has': ['key', 'kex', 'enc', 'mac'], 'subset': subset, 'larger': larger, 'dhs': {}}
         for f in ('key', 'kex', 'enc', 'mac'):
@@ -200,7 +206,7 @@ def cli_leg(ck, tier, rnd, n=None):
     scs = []
     for c in cases:
         q = c['peer']
-        hk = {t: rating.hostkey_blob(t, (v['size'], v['catype'], v['casize'])) for t, v in q['hks'].items()}
+        hk = {t: rating.hostkey_blob(t, (v['size'], v['catype'], v['casize'])) for t, v in q['hks'].items() if v['size'] > 0}
         srv = peers.ServerCfg(banner=banner_text(q['banner']).encode(), kexinit={'kex': q['kex'], 'key': q['key'], 'enc': q['enc'], 'mac': q['mac'], 'comp': q['comp']},
                               hostkeys=hk)
         for js in (False, True):
@@ -270,7 +276,7 @@ def multi_target_leg(ck, cases, exp, rnd):
     for gi, (pol, qs) in enumerate(groups):
         tg = []
         for q in qs:
-            hk = {t: rating.hostkey_blob(t, (v['size'], v['catype'], v['casize'])) for t, v in q['hks'].items()}
+            hk = {t: rating.hostkey_blob(t, (v['size'], v['catype'], v['casize'])) for t, v in q['hks'].items() if v['size'] > 0}
             tg.append(('server', peers.ServerCfg(banner=banner_text(q['banner']).encode(), kexinit={'kex': q['kex'], 'key': q['key'], 'enc': q['enc'], 'mac': q['mac'],
                                                                                              'comp': q['comp']}, hostkeys=hk)))
         for threads in (1, 2):
